@@ -256,6 +256,88 @@ theorem replay_runR (o : Oracle V E) (ex : V → X) (h : ExportExact o ex) (e : 
     congr 1
     rw [announceR_ve o ex h]
 
+/-! ### the comparison only ever sees values that went through the datatype -/
+
+/-- `ExportExact` restricted to canonical values (`canon v`: `v` is a result of the datatype's conversion / validation) -/
+def CanonExact (o : Oracle V E) (ex : V → X) (canon : V → Bool) : Prop :=
+  ∀ a b, canon a = true → canon b = true → o.veq a b = true → ex a = ex b
+
+/-- the oracle whose comparison says "different" as soon as one side is not canonical -/
+def restrictO (o : Oracle V E) (canon : V → Bool) : Oracle V E :=
+  ⟨fun a b => o.veq a b && canon a && canon b, o.conv, o.valid⟩
+
+theorem restrictO_exact (o : Oracle V E) (ex : V → X) (canon : V → Bool) (h : CanonExact o ex canon) :
+    ExportExact (restrictO o canon) ex := by
+  intro a b hab
+  simp only [restrictO, Bool.and_eq_true] at hab
+  exact h a b hab.1.2 hab.2 hab.1.1
+
+/-- every value of the history is canonical -/
+def CanonEvs (canon : V → Bool) (xs : List (REv V E)) : Prop := ∀ x ∈ xs, ∀ v, x.r = .val v → canon v = true
+
+theorem announceR_restrict (o : Oracle V E) (canon : V → Bool) (e : Entry V E) (now : Int) (r : VE V E)
+    (he : canon e.value = true) (hr : ∀ v, r = .val v → canon v = true) :
+    announceR (restrictO o canon) e now r = announceR o e now r ∧ canon (announceR o e now r).entry.value = true := by
+  cases r with
+  | err x =>
+    refine ⟨rfl, ?_⟩
+    unfold announceR
+    split <;> simpa [commit, storeValue, storeError, stamp] using he
+  | val v =>
+    have hv := hr v rfl
+    have hem : emits (restrictO o canon) e now (.val v) = emits o e now (.val v) := by
+      simp [emits, changed, restrictO, he, hv]
+    refine ⟨by unfold announceR; rw [hem], ?_⟩
+    unfold announceR
+    split <;> simpa [commit, storeValue, storeError, stamp] using hv
+
+theorem runR_restrict (o : Oracle V E) (canon : V → Bool) (e : Entry V E) (xs : List (REv V E))
+    (he : canon e.value = true) (hx : CanonEvs canon xs) : runR (restrictO o canon) e xs = runR o e xs := by
+  induction xs generalizing e with
+  | nil => rfl
+  | cons x xs ih =>
+    obtain ⟨h1, h2⟩ := announceR_restrict o canon e x.now x.r he (fun v hv => hx x (List.mem_cons_self ..) v hv)
+    simp only [runR, h1]
+    rw [ih _ h2 (fun y hy => hx y (List.mem_cons_of_mem _ hy))]
+
+theorem traceR_restrict (o : Oracle V E) (canon : V → Bool) (e : Entry V E) (xs : List (REv V E))
+    (he : canon e.value = true) (hx : CanonEvs canon xs) : traceR (restrictO o canon) e xs = traceR o e xs := by
+  induction xs generalizing e with
+  | nil => rfl
+  | cons x xs ih =>
+    obtain ⟨h1, h2⟩ := announceR_restrict o canon e x.now x.r he (fun v hv => hx x (List.mem_cons_self ..) v hv)
+    simp only [traceR, h1]
+    rw [ih _ h2 (fun y hy => hx y (List.mem_cons_of_mem _ hy))]
+
+/-- the resolved events of a history are canonical when the conversion yields canonical values and the values announced
+with `validate=False` are canonical (the docstring of `announceUpdate` demands it) -/
+theorem canonEvs_resolve (o : Oracle V E) (canon : V → Bool) (evs : List (TEv V E))
+    (hconv : ∀ v v', o.conv v = .ok v' → canon v' = true)
+    (hraw : ∀ x ∈ evs, ∀ v, x.ev = .value v false → canon v = true) :
+    CanonEvs canon (evs.map (TEv.resolve o)) := by
+  intro y hy v hv
+  simp only [List.mem_map] at hy
+  obtain ⟨x, hx, rfl⟩ := hy
+  simp only [TEv.resolve] at hv
+  cases hev : x.ev with
+  | error e => rw [hev] at hv; simp [resolve] at hv
+  | value v0 vd =>
+    rw [hev] at hv
+    cases vd with
+    | false =>
+      simp only [resolve, VE.val.injEq] at hv
+      subst hv
+      exact hraw x hx v0 hev
+    | true =>
+      simp only [resolve] at hv
+      cases hc : o.conv v0 with
+      | error e => rw [hc] at hv; cases hv
+      | ok v' =>
+        rw [hc] at hv
+        simp only [VE.val.injEq] at hv
+        subst hv
+        exact hconv v0 v' hc
+
 /-! ### the monitor decides the specification -/
 
 theorem judgeFrom_none_iff {S : Type} [DecidableEq S] (isErr : S → Bool) (i : Nat) (k prev : S) (tr : List (Obs S)) :
